@@ -327,9 +327,17 @@ let parse_tree s : tnode list =
 let c13 s b =
   let t = parse_tree s in
   let root = next_nat s in
-  match import libm_oracle t root [] with
+  (match import libm_oracle t root [] with
   | Err c -> Printf.bprintf b "node err %d" (int_of_nat c)
-  | Ok (ctx, node) -> Printf.bprintf b "node %d | arena " (int_of_nat node); buf_arena b ctx
+  | Ok (ctx, node) -> Printf.bprintf b "node %d | arena " (int_of_nat node); buf_arena b ctx);
+  (* the flattening of two consecutive affine remaps: Tree::remap_affine stores next * mat *)
+  if s.pos < Array.length s.toks && s.toks.(s.pos) = "F" then begin
+    s.pos <- s.pos + 1;
+    let m1 = times 12 (fun () -> next_f32 s) in
+    let m2 = times 12 (fun () -> next_f32 s) in
+    Printf.bprintf b " | fl";
+    List.iter (fun f -> let v = int_of_f32 f in Printf.bprintf b " %d" (if v land 0x7fffffff > 0x7f800000 then 0x7fc00000 else v)) (aff_mul f32_sc m1 m2)
+  end
 
 (* ---- C16: shape builders ------------------------------------------------------------ *)
 (* a tree table (no remaps inside the inputs the harness sends... but handle them anyway) -> AST *)
